@@ -10,15 +10,40 @@ class NullCase:
 
 
 class DateMarker:
-    def __init__(self, text):
-        self.text = text
+    def __init__(self, text, kind=None, value=None):
+        self.text, self.kind, self.value = text, kind, value
+
+
+class EitherTagged:
+    """Union declared over a type parameter: yardl decides tagged/untagged at the generic definition, where the docs'
+    rule (distinct JSON datatypes) cannot be evaluated; both renderings are accepted."""
+
+    def __init__(self, tag, inner):
+        self.tag, self.inner = tag, inner
+
+
+def parse_date_value(kind, s):
+    """Value (days / ns) of a date, time or datetime text, or None when it does not parse."""
+    import datetime, re
+    try:
+        if kind == "date":
+            return (datetime.date.fromisoformat(s) - datetime.date(1970, 1, 1)).days
+        m = re.match(r"^(?:(\d{4}-\d{2}-\d{2})T)?(\d{2}):(\d{2}):(\d{2})(?:\.(\d{1,9}))?Z?$", s)
+        if not m or (kind == "time") != (m.group(1) is None):
+            return None
+        ns = ((int(m.group(2)) * 60 + int(m.group(3))) * 60 + int(m.group(4))) * 10**9 + int((m.group(5) or "0").ljust(9, "0"))
+        if kind == "datetime":
+            ns += (datetime.date.fromisoformat(m.group(1)) - datetime.date(1970, 1, 1)).days * 86400 * 10**9
+        return ns
+    except ValueError:
+        return None
 
 
 def ref_json(t, v):
     """Reference NDJSON mapping with date/time/datetime replaced by markers (textual rendering not compared in C++)."""
     k = t[0]
     if k == "prim" and t[1] in ("date", "time", "datetime"):
-        return DateMarker(refcodec.tojson(t, v))
+        return DateMarker(refcodec.tojson(t, v), t[1], v)
     if k == "prim" or k == "enum":
         return refcodec.tojson(t, v)
     if k == "record":
@@ -37,8 +62,10 @@ def ref_json(t, v):
         tag, ct = t[1][idx]
         if ct is None:
             # docs are silent on how the null case of a *tagged* union is rendered: accept null and {"null": null}
-            return None if refcodec.union_untagged(t) else NullCase()
+            return None if (refcodec.union_untagged(t) and len(t) <= 2) else NullCase()
         j = ref_json(ct, inner)
+        if len(t) > 2:
+            return EitherTagged(tag, j)
         return j if refcodec.union_untagged(t) else {tag: j}
     if k == "vec":
         return [ref_json(t[1], x) for x in v]
@@ -58,7 +85,12 @@ def jeq(want, got, strict_dates=False, unordered_pairs=False):
     if isinstance(want, DateMarker):
         if not isinstance(got, str):
             return False
-        return (got == want.text or got == want.text + "Z" or got + "Z" == want.text) if strict_dates else True
+        # strict: the text must denote the same date/time value (trailing zeros of the fraction / "Z" are not compared)
+        return parse_date_value(want.kind, got) == want.value if strict_dates else True
+    if isinstance(want, EitherTagged):
+        if jeq(want.inner, got, strict_dates):
+            return True
+        return isinstance(got, dict) and list(got.keys()) == [want.tag] and jeq(want.inner, got[want.tag], strict_dates)
     if isinstance(want, NullCase):
         return got is None or got == {"null": None}
     if isinstance(want, bool) or isinstance(got, bool):
@@ -93,6 +125,8 @@ def jdump(x):
             return "<date:%s>" % o.text
         if isinstance(o, NullCase):
             return "<null>"
+        if isinstance(o, EitherTagged):
+            return {"<tagged-or-not:%s>" % o.tag: o.inner}
         raise TypeError
     return json.dumps(x, default=d)[:400]
 
@@ -112,6 +146,10 @@ class Engine:
     def fail(self, lang, mode, what, P, i, desc, vals, parts, path, data=None):
         sy = self.step_yaml(P, i) if i is not None else "<protocol %s>" % P
         key = "%s/%s/%s/%s" % (lang, mode, what, sy)
+        if P.startswith("PQ"):
+            # quarantined shape classes (shapes.quarantine_class): the key names the class, language and hop kind
+            xl = len({l for l, m, _ in path if "n" in m}) > 1
+            key = "quarantine/%s/%s/%s/%s/%s" % (P[2], lang, ("ndjson-xlang" if xl else "ndjson") if "n" in mode else "binary", what, sy)
         replay = {"namespace": self.pkg.namespace, "protocol": P, "step": None if i is None else self.protos[P].steps[i][0],
                   "step_type": sy, "path": path, "values": repr(vals)[:3000], "partitions": parts,
                   "model_yaml": am.yaml_model(self.pkg) if i is None else am.yaml_def(self.protos[P]),
@@ -184,7 +222,12 @@ class Engine:
                         s2, _, _ = self.drv(lang).call(P, mode, d2, bs)
                         return s2 == "OK"
                     bad = roundtrip.isolate(steps, vals, parts, sv, rerun)
-                if bad:
+                import re as _re
+                m = _re.match(r"@step=(\d+) ", msg)
+                if not bad and m and int(m.group(1)) < len(steps):
+                    i = int(m.group(1))
+                    self.fail(lang, mode, what, P, i, "%s on valid input at hop %d: %s (value %r)" % (st, hop_i, msg[:300], vals[i] if len(repr(vals[i])) < 300 else "..."), vals, parts, path, cur)
+                elif bad:
                     for i in bad:
                         self.fail(lang, mode, what, P, i, "%s on valid input: %s (value %r)" % (st, msg[:300], vals[i]), vals, parts, path, cur)
                 else:
@@ -215,7 +258,7 @@ class Engine:
                 for vals, parts in execs:
                     data = refcodec.encode_protocol(steps, vals, self.pr.schemas[P], parts)
                     for path in paths:
-                        if P.startswith("PD") and skip_dates_for and skip_dates_for(path):
+                        if (P.startswith("PD") or P.startswith("PQ")) and skip_dates_for and skip_dates_for(path) and (P.startswith("PD") or P[2] not in "bc"):
                             continue
                         self.chk.count()
                         self.run_path(P, steps, vals, parts, path, data, sv=sv)
